@@ -309,7 +309,9 @@ func findFunc(p *ssa.Package, key string) *ssa.Function {
 	return find(fn)
 }
 
-func sortedKeys(m map[string]bool) []string {
+// sortedKeys: map keys in a fixed order, so that the names created while walking a map (and with them the
+// query text and its cache key) do not depend on Go's map iteration order.
+func sortedKeys[V any](m map[string]V) []string {
 	var out []string
 	for k := range m {
 		out = append(out, k)
